@@ -246,6 +246,9 @@ def structural_cleanup(repo):
                                    and c.func.attr == 'join' for c in ast.walk(t)) for t in trys)
         three = "[process.stdin, process.stdout, process.stderr]" in src
         out.append({'id': 'cleanup', 'kind': 'post', 'ok': ok and only_oserror and join_outside and three,
+                    # a missing kill / wait / join / close is a violation (zombie, leaked pipe or thread); any other
+                    # difference in layout is only a changed shape
+                    'definite': not {'kill', 'wait', 'join', 'close'} <= set(order) or not three,
                     'label': 'dead helpers are reaped: _cleanup_process kills, waits (no zombie), joins the stderr '
                              'thread and closes all three pipes, swallowing only OSError, every step attempted',
                     'detail': 'order=%r only_oserror=%r join_outside=%r three_pipes=%r' % (order, only_oserror,
@@ -278,7 +281,7 @@ def structural_queue(repo):
     try:
         tree = ast.parse(open(os.path.join(repo, rel), encoding='utf-8').read())
     except (OSError, SyntaxError) as e:
-        return [{'id': 'deletion-queue-unbounded', 'kind': 'post', 'ok': None, 'label': 'cannot parse %s: %s' % (rel, e)}]
+        return [{'id': 'deletion-queue-unbounded', 'definite': True, 'kind': 'post', 'ok': None, 'label': 'cannot parse %s: %s' % (rel, e)}]
     ctors = []
     for n in ast.walk(tree):
         if isinstance(n, ast.Assign):
@@ -291,7 +294,7 @@ def structural_queue(repo):
             ok = True
         elif any('maxlen' in c or (c.startswith(('collections.deque(', 'deque(')) and ',' in c) for c in ctors):
             ok = False          # a bounded deque silently drops the oldest ids: those states are never released
-    return [{'id': 'deletion-queue-unbounded', 'kind': 'post', 'ok': ok,
+    return [{'id': 'deletion-queue-unbounded', 'definite': True, 'kind': 'post', 'ok': ok,
              'label': 'the deletion queue is an unbounded FIFO (deque() / list): no queued state id is ever dropped '
                       'before it was sent to the helper', 'detail': repr(ctors)}]
 
